@@ -396,6 +396,11 @@ static void apply_damage(file_t *F,const char *kind,long a,long b){
   else if(!strcmp(kind,"cleareos")){ unsigned char *pg=F->bytes+P.off; pg[5]&=~4; recrc(pg); }
   else if(!strcmp(kind,"seteos")){ unsigned char *pg=F->bytes+P.off; pg[5]|=4; recrc(pg); }
   else if(!strcmp(kind,"setbos")){ unsigned char *pg=F->bytes+P.off; pg[5]|=2; recrc(pg); }
+  else if(!strcmp(kind,"setcont")){ unsigned char *pg=F->bytes+P.off; pg[5]|=1; recrc(pg); }      /* claims to begin with the rest of a packet */
+  else if(!strcmp(kind,"clearcont")){ unsigned char *pg=F->bytes+P.off; pg[5]&=~1; recrc(pg); }
+  else if(!strcmp(kind,"setseq")){ unsigned char *pg=F->bytes+P.off; for(int i=0;i<4;i++) pg[18+i]=(unsigned char)((unsigned long)b>>(8*i)); recrc(pg); }   /* page sequence number */
+  else if(!strcmp(kind,"lacing")){ unsigned char *pg=F->bytes+P.off; int ns=pg[26]; if(ns>0){ int k=(int)(b%ns); long old=pg[27+k]; (void)old; /* the last lacing value: 255 <-> 254 flips "packet continues" */
+      if(pg[27+ns-1]==255) pg[27+ns-1]=254; else if(pg[27+ns-1]>0) { /* body length changes are not wanted: only toggle between 255 and itself */ } recrc(pg); } }
   else if(!strcmp(kind,"setserial")){ unsigned char *pg=F->bytes+P.off; for(int i=0;i<4;i++) pg[14+i]=(unsigned char)((unsigned long)b>>(8*i)); recrc(pg); }
   else if(!strcmp(kind,"flip")){ long o=P.off+b; if(o>=0&&o<F->len) F->bytes[o]^=0x5a; }
   else if(!strcmp(kind,"flipfix")){ long o=P.off+b; if(o>=P.off+27&&o<P.off+P.len){ F->bytes[o]^=0x5a; recrc(F->bytes+P.off);} }
